@@ -421,6 +421,89 @@ class Storm:
             c.close()
         self.quiesce(srv, expect_users=[], expect_conns=0, what="fifo teardown")
 
+    # ---------------------------------------------------------------- W4b flood with a reader that drains late
+    def w_flood(self, srv, n):
+        """one sender pipelines n numbered messages to a channel and to a nick; one receiver reads at once, another
+        has a small receive buffer and reads nothing until the flood is over (its queue backs up inside the server):
+        both must get every copy exactly once, in order, truly attributed"""
+        self.rounds += 1
+        pfx = self.uid("w")
+        snd = open_many(srv, 1, pfx + "s", password=self.password)[0]
+        fast = open_many(srv, 1, pfx + "f", password=self.password)[0]
+        lazy = wire.Client(srv.port, name="lazy", timeout=20.0, rcvbuf=4096)
+        lazy.keep_transcript = False
+        if self.password:
+            lazy.send("PASS " + self.password)
+        lazy.send("NICK %sl0" % pfx)
+        lazy.send("USER %sl0 0 * :lazy" % pfx)
+        lazy.read_until(lambda m: m.verb == "221")
+        chan = "#" + self.uid("fl")
+        for c in (snd, fast, lazy):
+            c.send("JOIN " + chan)
+            c.ping("j")
+        time.sleep(0.02)
+        for c in (snd, fast, lazy):
+            c.ping("j2")
+            c.read_available(0.0)
+        lnick = "%sl0" % pfx
+        pad = "x" * 200
+        burst = b""
+        want_chan, want_nick = [], []
+        for j in range(n):
+            if j % 5 == 0:
+                burst += ("PRIVMSG %s :fl %d %s\r\n" % (lnick, j, pad)).encode()
+                want_nick.append(j)
+            else:
+                burst += ("PRIVMSG %s :fl %d %s\r\n" % (chan, j, pad)).encode()
+                want_chan.append(j)
+        burst += ("PRIVMSG %s,%s :FLUSH\r\nPING end\r\n" % (chan, lnick)).encode()
+        # the fast reader drains while the sender is still writing
+        import threading
+        got_fast = []
+
+        def drain_fast():
+            try:
+                got_fast.extend(fast.read_until(lambda m: m.verb == "PRIVMSG" and m.params[-1:] == ["FLUSH"], 60.0))
+            except (wire.Closed, wire.Timeout) as ex:
+                got_fast.extend(getattr(ex, "lines", []))
+                got_fast.append(None)
+        t = threading.Thread(target=drain_fast)
+        t.start()
+        snd.sock.settimeout(60.0)
+        snd.send_raw(burst)
+        try:
+            snd.read_until(lambda m: m.verb == "PONG" and m.params[-1:] == ["end"], 60.0)
+        except (wire.Closed, wire.Timeout) as ex:
+            self.bad("storm:flood-sender", "sender lost during the flood (%s)" % type(ex).__name__)
+        t.join(70.0)
+        # only now the lazy receiver reads
+        try:
+            got_lazy = lazy.read_until(lambda m: m.verb == "PRIVMSG" and m.params[-1:] == ["FLUSH"]
+                                       and m.params[0] == lnick, 60.0)
+        except (wire.Closed, wire.Timeout) as ex:
+            got_lazy = getattr(ex, "lines", []) + [None]
+        src = "%ss0" % pfx
+        for who, lines, want in (("prompt reader", got_fast, want_chan), ("late reader", got_lazy, sorted(want_chan + want_nick))):
+            if lines and lines[-1] is None:
+                self.bad("storm:flood-lost", "%s: stream ended before the flush marker (%d lines)" % (who, len(lines) - 1))
+                lines = lines[:-1]
+            seq = []
+            for m in lines:
+                if m is not None and m.verb == "PRIVMSG" and m.params[-1].startswith("fl "):
+                    seq.append(int(m.params[-1].split()[1]))
+                    if (m.source or "").split("!")[0] != src:
+                        self.bad("storm:flood-misattributed", "%s got %r from %s" % (who, m.params[-1][:20], m.source))
+            self.events += len(lines)
+            if seq != want:
+                missing = sorted(set(want) - set(seq))[:10]
+                dup = [x for x in set(seq) if seq.count(x) > 1][:5]
+                self.bad("storm:flood-fifo", "%s of a flood of %d messages: got %d copies, missing %s, duplicated %s, "
+                         "in order: %s" % (who, n, len(seq), missing, dup, seq == sorted(seq)))
+        self.classes.add(("flood", n))
+        for c in (snd, fast, lazy):
+            c.close()
+        self.quiesce(srv, expect_users=[], expect_conns=0, what="flood teardown")
+
     # ---------------------------------------------------------------- W5 churn
     def w_churn(self, srv, k, n):
         self.rounds += 1
@@ -492,6 +575,10 @@ Storm.attributable = _attributable
 
 
 def worker(args):
+    only = None
+    if len(args) == 9:
+        only = args[8]
+        args = args[:8]
     binary, hooks, seed, jitter, threads, password, rounds, quick = args
     st = Storm(binary, hooks, seed, jitter, threads, password)
     out = dict(findings=[], rounds=0, events=0, classes=[], winners=0, orders=0, inconclusive=None, samples=[])
@@ -499,7 +586,8 @@ def worker(args):
         with st.server() as srv:
             r = st.r
             for _ in range(rounds):
-                kind = r.choice(["claim", "claim", "claim", "rename", "firstjoin", "order", "limit", "fifo", "churn"])
+                kind = r.choice(["claim", "claim", "claim", "rename", "firstjoin", "order", "limit", "fifo", "churn", "flood"]
+                                if only is None else only)
                 if kind == "claim":
                     st.w_claim(srv, r.choice([4, 8, 16]), r.choice(["nick-then-user", "user-then-nick", "one-segment"]))
                 elif kind == "rename":
@@ -512,6 +600,8 @@ def worker(args):
                     st.w_limit(srv, r.choice([6, 10]), r.choice([1, 2, 3, 5]))
                 elif kind == "fifo":
                     st.w_order_full(srv, r.choice([3, 5]), 30 if quick else 80)
+                elif kind == "flood":
+                    st.w_flood(srv, r.choice([400, 1500]) if quick else r.choice([1500, 6000]))
                 else:
                     st.w_churn(srv, r.choice([6, 10]), 25 if quick else 60)
                 if len(st.findings) > 8 or not srv.alive():
